@@ -48,7 +48,12 @@ theorem handler_ok_iff (cat : Catalogue) (k : Kind) (id : String) (s : Step) (m 
     handler cat k id s = .ok m ↔
       s.cond.usable = true ∧ accepts cat k id s.config = true ∧ m = ⟨k, id, s.cond.isExpr, s.config⟩ := by
   unfold handler
-  cases hc : s.cond <;> simp [condition, bind_ok_iff, create_ok_iff, Cond.usable, Cond.isExpr]
+  cases hc : s.cond with
+  | expr src t =>
+    cases t with
+    | none => simp [condition, bind_ok_iff, Cond.usable]
+    | some t => cases t <;> simp [condition, compiles, bind_ok_iff, create_ok_iff, Cond.usable, Cond.isExpr]
+  | _ => simp [condition, bind_ok_iff, create_ok_iff, Cond.usable, Cond.isExpr]
 
 theorem known_override (cat : Catalogue) (s : Step) :
     (s.known cat && s.overrideOk cat) =
